@@ -41,6 +41,7 @@ class Sim(object):
         self.vars = {}      # key -> dims
         self.ctr = 0
         self.off = 0        # 20200000 for one history in five: labels whose spacing is tiny relative to their size
+        self.offi = 0       # 2**63 for a few histories: integer labels that only an unsigned 64-bit axis holds exactly (ids, hashes)
 
     def fresh(self, prefix):
         self.ctr += 1
@@ -60,7 +61,7 @@ class Sim(object):
 
 
 def fresh_labels(rng, kind, n, sim):
-    base = sim.ctr * 10 + (sim.off if kind in 'if' else 0)
+    base = sim.ctr * 10 + (sim.off if kind in 'if' else 0) + (sim.offi if kind == 'i' else 0)
     sim.ctr += 1
     if kind == 'i':
         return gen.reorder(rng, [base + 3 * i for i in range(n)], rng.choice(['inc', 'dec', 'shuf']))
@@ -97,6 +98,8 @@ def gen_history(rng, nsteps, forced_bad=None):
     sim = Sim()
     if rng.random() < 0.2:
         sim.off = gen.BIG
+    elif rng.random() < 0.1:
+        sim.offi = 2 ** 63
     direct = set()
     steps = []
     start = rng.choice(['empty', 'empty', 'ctor'])
@@ -230,6 +233,9 @@ def gen_history(rng, nsteps, forced_bad=None):
                 i = rng.randrange(len(l))
                 newl = list(l)
                 newl[i] = fresh_labels(rng, k, 1, sim)[0]
+                if sim.offi and k == 'i' and rng.random() < 0.5:
+                    newl[i] = sim.ctr * 10 + 7          # an ordinary (signed) integer among the huge unsigned ones: every label stays exact
+                    sim.ctr += 1
                 steps.append({"op": op, "dim": d, "i": i, "label": newl[i], "via": via})
             else:
                 newl = fresh_labels(rng, k, len(l), sim)
